@@ -19,6 +19,7 @@ import Kap.Proofs.C05Udf
 import Kap.Proofs.C05Bnd
 import Kap.Proofs.C05Term
 import Kap.Proofs.C05Part
+import Kap.Proofs.C05Typ
 import Kap.Spec.C05
 import Kap.Gen.C05
 namespace Kap.Props.C05
@@ -84,6 +85,29 @@ theorem lexer_partition (c : Ctx) (hf : c.fixed = true) (toks : List Tok) (h : l
 
 example : lexSpec { inp := [0x61, 0x20, 0x2F, 0xC3, 0xA9, 0x2F], cls := Cls.none }
     (.toks [⟨tIdent, 0, some 1⟩, ⟨tDiv, 2, some 1⟩, ⟨tError, 3, none⟩] true) = none := by decide
+
+/-- **Real token types only**: every token the scanner emits carries one of the `TokenType` constants the
+lexer uses — never a `begin_…/end_…` range marker, never a value above `TokenRegexNotEqual`. -/
+theorem lexer_token_types_valid (c : Ctx) (hf : c.fixed = true) (toks : List Tok) (h : lexRun c = .done toks) :
+    ∀ t ∈ toks, validType t.typ = true := by
+  have hg : Good c {} := ⟨rfl, by simp, by simp, by simp [Ctx.len], ⟨by simp, by simp⟩⟩
+  have hV : V ({} : Lx).toks := by intro t ht; cases ht
+  obtain ⟨l', h', hv⟩ := run_valid c hf (lexFuel c) {} .token hg trivial hV (by simp [mu, rank, lexFuel, Ctx.len])
+  have e : toks = l'.toks.reverse := by
+    have : LexOut.done toks = LexOut.done l'.toks.reverse := by rw [← h, ← h']; rfl
+    exact LexOut.done.inj this
+  subst e
+  exact fun t ht => hv t (List.mem_reverse.mp ht)
+
+/-- … hence the parser's `precedence[look.typ]` behind `IsExprOperator(look.typ)` (markers extracted from the
+`iota` block) indexes inside the 46-entry table: every real token type that passes `IsExprOperator` is at
+most `TokenRegexNotEqual` = 45 and is a genuine operator. -/
+theorem precedence_index_in_table :
+    Gen.tokenConsts.lookup "begin_tok_operator" = some 25 ∧ Gen.tokenConsts.lookup "end_tok_operator" = some 47 ∧
+    ∀ t ∈ validTypes, isExprOperator 25 47 t = true → t ≤ tRegexNotEqual ∧
+      (t = tPlus ∨ t = tMinus ∨ t = tMult ∨ t = tDiv ∨ t = tMod ∨ t = tAnd ∨ t = tOr ∨ t = tEqual ∨ t = tNotEqual ∨
+       t = tLess ∨ t = tGreater ∨ t = tLessEqual ∨ t = tGreaterEqual ∨ t = tRegexEqual ∨ t = tRegexNotEqual) := by
+  decide
 
 /-- **On rune boundaries**: every token starts and ends where a rune of the input starts (offsets reached
 from 0 by decoding one rune after the other, `Bnd`) — no token ever cuts a multi-byte rune, which is what
@@ -199,9 +223,19 @@ theorem parser_error_panics_become_errors :
     ∀ e, runDeferred Gen.parserRecover (.ret e) = .returns e := by
   refine ⟨by decide, by decide, fun e => rfl⟩
 
-/-- Full strength: `ast.Parse` never panics. NOT provable from the shape: `parser.recover` deliberately
-re-panics `runtime.Error`s, so it holds only if the (unmodelled) recursive-descent parser never raises one
-(e.g. `db.(*ReferenceNode)`, slice bounds in `unexpected`). Searched by the child-process harness. -/
+/-- Full strength: `ast.Parse` never panics. NOT proved: the recursive-descent parser itself is not modelled,
+and `parser.recover` deliberately re-panics `runtime.Error`s. What IS established about its trap sites:
+* every slice / index expression of parser.go and node.go is in the reviewed inventory
+  (`ast_slice_sites_reviewed`, fail closed), the comment path has none (`comment_path_has_no_slice_site`);
+* the text slices (`p.text[…]`, `lineNumber`) take token positions, which are inside the input and ordered
+  (`lexer_in_bounds`), token texts lie on rune boundaries (`lexer_rune_boundaries`);
+* `precedence[look.typ]` stays inside the table (`lexer_token_types_valid`, `precedence_index_in_table`);
+* every explicit `panic(` of parser.go carries an error value, which `parser.recover` returns as the error
+  (`parser_error_panics_become_errors`).
+Still assumed (review + exhaustive structural enumeration in child processes, no theorem): the two-token
+lookahead indexes `p.token[…]`/`p.comments[…]` stay below 2, `args[l-1]` is behind `l > 0`, the literal
+constructors (`newString`, `newRegex`, `newReference`, `newNumber`) slice token texts that begin and end with
+their delimiters, the type assertions on parser results (`db.(*ReferenceNode)`) hold. -/
 def parser_never_panics_stmt : Prop := ∀ b : Body, ∃ e, runDeferred Gen.parserRecover b = .returns e
 
 /-- What the shape does give: exactly the run-time errors and non-error panic values get through. -/
@@ -218,9 +252,38 @@ theorem evaluate_recover_characterised (v : PanicVal) :
     runDeferred Gen.evaluate (.panics v) = (if v = .emptyStack then .returns true else .propagates v) := by
   cases v <;> decide
 
-/-- Full strength: `tick.Evaluate` never panics. Not provable (see above): the reflection-driven evaluator
-is not modelled. One script text reaching the re-panic was found and repaired (7803d70); the harness keeps
-searching with scripts generated from the node API. -/
+/-- **Reflective calls are protected** (extracted shapes): the function value `evalFunc` builds starts with
+`defer rec(obj, &err)`, `rec` evaluates `recover()` unconditionally and re-panics nothing — so a panic of ANY
+value raised inside a reflective call (a node method, a chain method, a property setter, a global
+function, `NewReflectionDescriber`) comes out of `tick.Evaluate` as an error. -/
+theorem reflective_call_panic_becomes_error (v : PanicVal) :
+    Gen.evalFuncDefersRec = some true ∧
+    evaluateOutcome Gen.evalFuncRecover Gen.evaluate .inReflectiveCall v = .returns true := by
+  refine ⟨by decide, ?_⟩
+  cases v <;> decide
+
+/-- … and outside the reflective calls exactly the stack-discipline panic (`ErrEmptyStack`, the only
+explicit `panic(` of tick/stack.go) is turned into an error; anything else there is re-panicked. -/
+theorem evaluate_outcomes_characterised (site : EvalSite) (v : PanicVal) :
+    evaluateOutcome Gen.evalFuncRecover Gen.evaluate site v =
+      (if site = .inReflectiveCall ∨ v = .emptyStack then .returns true else .propagates v) := by
+  cases site <;> cases v <;> decide
+
+/-- Every slice / index / unchecked type-assertion site of tick/eval.go and tick/stack.go is one of the
+reviewed sites (a new one breaks this; review notes, not proofs). In particular there is NO unchecked type
+assertion in the evaluator. -/
+theorem eval_sites_reviewed : ∀ s ∈ Gen.evalSliceSites, evalSiteReviewed s = true := by decide
+
+/-- Full strength: `tick.Evaluate` never panics. NOT proved. Established: a panic inside a reflective call
+becomes an error (`reflective_call_panic_becomes_error`); `ErrEmptyStack` — the only explicit panic of the
+stack — becomes an error anywhere; every slice / index site of eval.go and stack.go is reviewed and there is
+no unchecked type assertion (`eval_sites_reviewed`). Exactly what is ASSUMED: outside the reflective calls
+`eval` raises no run-time error other than through the reviewed sites, i.e. (a) the reviewed index sites
+hold (loop indexes, length-guarded, map accesses), (b) no nil `ast.Node`/interface method call and no
+reflection call (`reflect.Value.Interface`, `reflect.ValueOf(...).Kind`) on a zero Value happens in
+`evalChain`'s property READ path and in `NewReflectionDescriber` when reached outside `evalFunc` (one
+such defect was found and repaired, 7803d70), (c) `stateful.Scope` accessors do not panic. The harness
+searches this with scripts generated from the node API in child processes. -/
 def evaluate_never_panics_stmt : Prop := ∀ b : Body, ∃ e, runDeferred Gen.evaluate b = .returns e
 
 /-! ### The UDF peer -/
